@@ -38,7 +38,7 @@ def cases(draw):
     size = max(56, chunk * nchunks - draw(st.integers(0, chunk - 1)))
     seg = draw(st.sampled_from([64, 128, 300, 4096]))
     cut = draw(st.one_of(st.none(), st.integers(0, nchunks - 1), st.integers(0, nchunks - 1)))
-    return {"k": k, "n": n, "chunk": chunk, "size": size, "seg": seg, "cut": cut, "fill": draw(st.integers(0, 3)),
+    return {"hsalt": draw(st.integers(0, 15)), "k": k, "n": n, "chunk": chunk, "size": size, "seg": seg, "cut": cut, "fill": draw(st.integers(0, 3)),
             "sched": draw(st.lists(st.integers(0, 9), max_size=draw(st.sampled_from([0, 40]))))}
 
 
